@@ -224,6 +224,10 @@ def run(pid, tier):
             args = ['int', 14, seed, 4000 if quick else 160000, 'near' if quick else 'all', 70, 1]
             if drive(rep, exe, args, w + '/int.ndjson', 'int-default'):
                 validate(rep, pid, w + '/int.ndjson', 'int', 'default', args, notes)
+            # a C89 build of the library (no stdbool: scpi_bool_t is an unsigned char, truth values pass through it)
+            args89 = ['int', 14, seed + 1, 1500 if quick else 40000, 'near', 70, 1]
+            if drive(rep, lib.build('drv_format', ['drv_format.c'], config='c89'), args89, w + '/int89.ndjson', 'int-c89'):
+                validate(rep, pid, w + '/int89.ndjson', 'int-c89', 'c89', args89, notes)
             rep.assumptions += ['the return value is read as "the number of characters produced", i.e. min(length of the canonical text, buffer length); the NUL is not counted',
                                 'bytes inside the buffer behind the terminating NUL are not constrained',
                                 'quick: every boundary value with the lengths 0, 1, |text|-1 .. |text|+1, 70 and one random length; thorough: every length 0..70']
